@@ -311,6 +311,7 @@ func (ex *Exec) builtin(name string, args []Value, fr *Frame, pos token.Pos, ins
 			if x == nil {
 				return bvConst(64, 0)
 			}
+			ex.noteMapRead(x)
 			return bvConst(64, uint64(len(x.entries)))
 		case StructV:
 			return bvConst(64, uint64(len(x)))
@@ -538,6 +539,7 @@ func (ex *Exec) lookup(fr *Frame, ins *ssa.Lookup) Value {
 		return ex.strIndex(fr, s, bvResize(ex.val(fr, ins.Index).(*Term), 64, isSigned(ins.Index.Type())), ins.Pos())
 	}
 	m := x.(*MapObj)
+	ex.noteMapRead(m)
 	key := ex.val(fr, ins.Index)
 	ex.checkHashable(fr, key, ins.Pos())
 	zero := ex.zero(ins.X.Type().Underlying().(*types.Map).Elem())
@@ -595,6 +597,7 @@ func (ex *Exec) rangeIter(fr *Frame, x Value, t types.Type) Value {
 	switch xv := x.(type) {
 	case *MapObj:
 		it := &IterV{m: xv, perm: ex.allMapOrders}
+		ex.noteMapRead(xv)
 		if xv != nil {
 			it.keys = append(it.keys, xv.entries...)
 		}
